@@ -123,9 +123,6 @@ func VerifC20Static() {
 	}
 	vf.Assert(merr == nil, "modifier-returns-no-error")
 	got, rerr := ioutil.ReadAll(res.Body)
-	if rerr != nil {
-		vf.Dump(rerr.Error())
-	}
 	vf.Assert(rerr == nil, "response-body-readable")
 	vf.Assert(res.ContentLength == int64(len(got)), "content-length-matches-body")
 	full := res.StatusCode == 200 && bytes.Equal(got, content)
